@@ -53,6 +53,9 @@ def run_here(brief, via_props=False):
                 mdl = [str(e[1])[:300] for e in res.d[nm] if e[1]][:1]
                 det = [e[4] for e in res.d[nm] if e[0] != 'proved' and e[4]][:1]
                 print(f"{st:8s} {nm}  x{len(res.d[nm])}", mdl if st != "proved" else "", det if st != "proved" else "")
+    if via_props:
+        rc = ctx.finish("other", "probe run of props/_handles.p_handles (temp evidence dir)")
+        print("finish rc", rc, "evidence", os.environ["VERIF_EVIDENCE_DIR"], "functions", len(ctx.functions), "violations", len(ctx.violations))
     print("TOTAL", n, "solver_s", round(secs, 2), "wall_s", round(time.time() - t, 2), "vacuity", ctx.vacuity,
           "engine_errors", ctx.engine_errors)
     print("REFUTED:", json.dumps(refuted))
